@@ -29,6 +29,14 @@ CHECKS = {
    text='For every standard-form problem from the L family the driver records the real trace of Tableau::step; z3 decides per step, in both directions and for all points of a box, that the equation system and objective row are preserved, that the starting tableau (incl. two-phase start) describes the standard form, and that the final tableau is optimal over all feasible points (or the unbounded report has a feasible point and an improving ray). Unit basis columns, b>=0 and monotone objective are evaluated on each concrete tableau.',
    note='Tolerance-aware (1e-6 relative inside |y|<=10) because traces contain rounded floats. The symbolic-tableau inductive step (Kani) is in the thorough tier only (about 13 min / 10 GB).',
    ref='DESIGN §3 C14'),
+ 'C15': dict(cat=TV, tech='real MILP entry points run under every (time limit, gap) setting; z3 (exact LIA/LRA) decides the implications a correct outcome must satisfy for all points',
+   text='For every MILP family member x time limit {0,1ns,1us,1ms,none} x gap {none,0,1e-6,0.5,10,-1,NaN,inf} the real solve_milp_lp_problem_with and the builder Microlp wrapper are run; z3 decides that a solution labelled Optimal has no feasible point better by more than the gap, that Infeasible/Unbounded verdicts are true, and exact evaluation shows every returned point feasible; invalid gaps must be rejected. Because the obligations are implications over outcomes, the instant the limit fires cannot cause a false alarm.',
+   note='The run is concrete (wall-clock limits, third-party search); limits of 0 ns make the interrupted branch deterministic. Timing-dependent counterexamples that do not reproduce in 3 replays are counted, not reported.',
+   ref='DESIGN §3 C15'),
+ 'C17': dict(cat=TV, tech='SMT denotation equality (z3) between the real LinearModel and its CPLEX-LP export read back by an independent reader',
+   text='For every family member the real to_lp_format() text is parsed by an independent CPLEX-LP reader and z3 decides, for ALL points, that the two feasible sets are equal (xor unsat) and the two objective functions are equal; sense and Binary/General markings are compared; generated row names unique and user names kept are evaluated.',
+   note='Decimal literals are read into doubles as any LP reader does. Dialect choices of the reader are listed in smt/lpcheck.py.',
+   ref='DESIGN §3 C17'),
 }
 NA = {
  'C04': 'no value quantifier: every clause evaluates one returned point; the solver bridges (microlp, Clarabel, IndexMap) cannot be executed symbolically (DESIGN §3 C04); its premises are still evaluated inside C03/C05/C15',
